@@ -2,6 +2,7 @@
 from cfg import cfg_of
 from flow import Taint, callee_matches, op_local, prep, field_reads
 from rules import CallGuard, CallSink, CmpGuard, RetSink, P, PL
+from rules import returned_directly
 from props.C04 import call_results
 
 META = {
@@ -258,7 +259,7 @@ def is_valid_rules(R, pfx):
         elif set(kinds) <= {"map", "unwrap_or"} and "map" in kinds:
             okn = any(k[1] == "false" for c in comb if c["ncallee"].endswith("unwrap_or") for k in c["consts"])
         # the closure's value is the verify verdict
-        cl_ok = any(b["term"]["k"] == "call" and callee_matches(b["term"], [VER]) and (b["term"]["d"] == [0] or 0 in Taint(vb).closure({b["term"]["d"][0]})) for b in vb.blocks)
+        cl_ok = any(b["term"]["k"] == "call" and callee_matches(b["term"], [VER]) and (returned_directly(vb, b["term"]["d"]) or 0 in Taint(vb).closure({b["term"]["d"][0]})) for b in vb.blocks)
         okn = okn and cl_ok
     if not okn:
         R.viol(pfx + ".is_valid.unsigned", "unsigned-valid", "Scratchpad::is_valid can return true for a scratchpad without a signature (%s)" % why, iv, iv.lines[0])
